@@ -27,7 +27,7 @@ type nfa struct {
 	tr     []map[string][]int
 	start  int
 	final  map[int]bool
-	undec  []string // reasons the construction left the fragment
+	undec  []string          // reasons the construction left the fragment
 	atomAt map[string]string // label -> one source position (diagnostics)
 }
 
